@@ -102,6 +102,41 @@ fn main() {
         "mut" => { let v = unhex(&args[2]); match bounded::mut_replay(&v) { Some(d) => { println!("DISAGREE {}", d); std::process::exit(1); } None => println!("AGREE") } }
         "matches" => { let v = unhex(&args[2]); match bounded::matches_replay(&v) { Some(d) => { println!("DISAGREE {}", d); std::process::exit(1); } None => println!("AGREE") } }
         "fromparts" => { let v = unhex(&args[2]); match bounded::fromparts_replay(&v) { Some(d) => { println!("DISAGREE {}", d); std::process::exit(1); } None => println!("AGREE") } }
+        "xleaf" => {
+            // a leaf parser of the extension code, reached through the public API that calls it (panics are caught)
+            use unic_locale_impl::extensions::{PrivateExtensionList, TransformExtensionList, UnicodeExtensionList};
+            let kind = args[2].as_str();
+            let v = unhex(&args[3]);
+            let low: Vec<u8> = v.iter().map(|c| x_lower_b(*c)).collect();
+            let lows = String::from_utf8_lossy(&low).to_string();
+            let vv: &[u8] = &v;
+            let res = std::panic::catch_unwind(|| -> (bool, bool, bool) {
+                // (library accepted, production accepts, stored value is the normalised input)
+                match kind {
+                    "ukey" => { let mut u = UnicodeExtensionList::default(); let ok = u.set_keyword(vv, &[]).is_ok();
+                        (ok, x_is_ukey(vv), !ok || u.keyword_keys().collect::<Vec<_>>() == vec![lows.as_str()]) }
+                    "utype" => { let mut u = UnicodeExtensionList::default(); let ok = u.set_keyword(&b"ca"[..], &[vv]).is_ok();
+                        let want: Vec<&str> = if lows == "true" { vec![] } else { vec![lows.as_str()] };
+                        (ok, x_is_utype(vv), !ok || u.keyword("ca").unwrap().collect::<Vec<_>>() == want) }
+                    "uattr" => { let mut u = UnicodeExtensionList::default(); let ok = u.set_attribute(vv).is_ok();
+                        (ok, x_is_utype(vv), !ok || u.attributes().collect::<Vec<_>>() == vec![lows.as_str()]) }
+                    "tkey" => { let mut t = TransformExtensionList::default(); let ok = t.set_tfield(vv, &[]).is_ok();
+                        (ok, x_is_tkey(vv), !ok || t.tfield_keys().collect::<Vec<_>>() == vec![lows.as_str()]) }
+                    "tvalue" => { let mut t = TransformExtensionList::default(); let ok = t.set_tfield(&b"h0"[..], &[vv]).is_ok();
+                        let want: Vec<&str> = if lows == "true" { vec![] } else { vec![lows.as_str()] };
+                        (ok, x_is_utype(vv), !ok || t.tfield("h0").unwrap().collect::<Vec<_>>() == want) }
+                    _ => { let mut p = PrivateExtensionList::default(); let ok = p.add_tag(vv).is_ok();
+                        (ok, x_is_private(vv), !ok || p.tags().collect::<Vec<_>>() == vec![lows.as_str()]) }
+                }
+            });
+            match res {
+                Err(_) => { println!("DISAGREE the {} argument b\"{}\" makes the library PANIC (C01: must return Ok or Err)", kind, esc(&v)); std::process::exit(1); }
+                Ok((got, want, stored)) => if got != want || !stored {
+                    println!("DISAGREE {} argument b\"{}\": library {}, production says {}, stored value normalised: {}", kind, esc(&v), if got { "accepts" } else { "rejects" }, if want { "well-formed" } else { "ill-formed" }, stored);
+                    std::process::exit(1);
+                } else { println!("AGREE {} b\"{}\"", kind, esc(&v)); }
+            }
+        }
         "lsr" => {
             // real maximize / minimize / character_direction on raw integer forms ("-" = absent); prints raw results
             let p64 = |s: &str| if s == "-" { None } else { s.parse::<u64>().ok() };
